@@ -1032,7 +1032,11 @@ func FirstUseStress(seed int64, rounds int) []Problem {
 		_, err := b.Send(context.Background(), t, i)
 		got := sink.n.Load() - before
 		if !b.IsAnyPipelineRegistered(t) || got != 1 || a != 1 || s != 1 || !ok1 || !ok2 || err != nil {
-			problems = append(problems, Problem{"C04", fmt.Sprintf("after RegisterPipeline, SetSuccessThreshold(1) and SetSuccessThresholdSinks(1) ran concurrently on a fresh event type and all returned nil: registered=%v delivered=%d thresholds=%d,%d err=%v - no sequential order of the three calls gives this", b.IsAnyPipelineRegistered(t), got, a, s, err)})
+			what := fmt.Sprintf("after RegisterPipeline, SetSuccessThreshold(1) and SetSuccessThresholdSinks(1) ran concurrently on a fresh event type and all returned nil: registered=%v delivered=%d thresholds=%d,%d err=%v - no sequential order of the three calls gives this", b.IsAnyPipelineRegistered(t), got, a, s, err)
+			problems = append(problems, Problem{"C04", what})
+			if a != 1 || s != 1 || !ok1 || !ok2 {
+				problems = append(problems, Problem{"C02", "thresholds do not read back as last set: " + what})
+			}
 		}
 	}
 	return problems
